@@ -60,7 +60,7 @@ def coverage_from(out, stats, spec, rule, extra=None):
 
 # safety caps: an exploration that does not stay within them (possible when the code under test is
 # broken in a way that blows the state space up) stops after the last complete level and says so
-BUDGET_S = {"quick": 150, "thorough": 1500}
+BUDGET_S = {"quick": 150, "thorough": 3000}
 MAX_STATES = {"quick": 1500000, "thorough": 8000000}
 
 
